@@ -21,6 +21,9 @@ struct Observer {
   virtual bool admit(int f, int b, const CState &s) { return true; }
   virtual void enter_block(int f, int b, const CState &s) {}
   virtual void leave_block(int f, int b, const CState &s) {}
+  // the visit of block b (just entered) blocked and the execution resumes at a sibling successor:
+  // the entry into b belongs to a different (stuck) execution, not to the one that continues
+  virtual void backtracked(int f, int b) {}
   // after statement i of block b of f executed normally
   virtual void stmt_done(int f, int b, int i, const CState &before, const CState &after) {}
   virtual void assert_eval(int id, bool ok, int f, int b, int i, const CState &s) {}
@@ -366,6 +369,7 @@ struct Exec {
         r = exec_block(fi, cur, st);
       }
       if (r == RS_BLOCKED && !alts.empty()) {
+        obs.backtracked(fi, cur);
         st = snap;
         cur = alts.back();
         alts.pop_back();
